@@ -39,6 +39,7 @@ written against and for the tree under analysis, so it can only remove differenc
 from __future__ import annotations
 
 import ast
+import copy
 
 _QUIET = {"debug", "info"}      # (.log(level, ..) is kept: its level is a run-time value)
 _LOGGERS = {"logging", "logger", "log", "_log", "_logger", "LOG", "LOGGER"}
@@ -547,9 +548,46 @@ class _Norm(ast.NodeTransformer):
         # N4
         if self.fn_stack and in_function:
             out = self._n4(out)
+            out = self._n25(out)
         if not out:
             out = [ast.copy_location(ast.Pass(), body[0])] if body else []
         return out
+
+    def _n25(self, out):
+        """N25: `if c: x = A else: x = B` followed by the one statement that reads x (nothing else in the function does), with A and B plain
+        access paths, is that statement in both arms with A resp. B in x's place (the common suffix `x.f().g` un-factored)."""
+        fn = self.fn_stack[-1]
+        res = []
+        i = 0
+        while i < len(out):
+            a = out[i]
+            b = out[i + 1] if i + 1 < len(out) else None
+            if isinstance(a, ast.If) and len(a.body) == 1 and len(a.orelse) == 1 and isinstance(b, (ast.Assign, ast.Expr, ast.Return)) \
+                    and all(isinstance(x, ast.Assign) and len(x.targets) == 1 and isinstance(x.targets[0], ast.Name) and _plain_chain(x.value)
+                            for x in (a.body[0], a.orelse[0])) and a.body[0].targets[0].id == a.orelse[0].targets[0].id:
+                name = a.body[0].targets[0].id
+                loads, stores = _count_names(fn, name)
+                reads_in_b = [n for n in ast.walk(b) if isinstance(n, ast.Name) and n.id == name and isinstance(n.ctx, ast.Load)]
+                stores_in_b = [n for n in ast.walk(b) if isinstance(n, ast.Name) and n.id == name and isinstance(n.ctx, ast.Store)]
+                if loads == 1 and stores == 2 and len(reads_in_b) == 1 and not stores_in_b \
+                        and not any(isinstance(n, (ast.Lambda, ast.ListComp, ast.GeneratorExp, ast.SetComp, ast.DictComp)) for n in ast.walk(b)):
+                    def put(val):
+                        c = copy.deepcopy(b)
+                        for parent in ast.walk(c):
+                            for fld, v in ast.iter_fields(parent):
+                                if isinstance(v, ast.Name) and v.id == name and isinstance(v.ctx, ast.Load):
+                                    setattr(parent, fld, copy.deepcopy(val))
+                                elif isinstance(v, list):
+                                    for k, x in enumerate(v):
+                                        if isinstance(x, ast.Name) and x.id == name and isinstance(x.ctx, ast.Load):
+                                            v[k] = copy.deepcopy(val)
+                        return c
+                    res.append(ast.copy_location(ast.If(test=a.test, body=[put(a.body[0].value)], orelse=[put(a.orelse[0].value)]), a))
+                    i += 2
+                    continue
+            res.append(a)
+            i += 1
+        return res
 
     def _n4(self, out):
         fn = self.fn_stack[-1]
@@ -780,8 +818,31 @@ class _Norm(ast.NodeTransformer):
         if not st.body:
             st.body = [ast.copy_location(ast.Pass(), st)]
 
+    # N24: a conditional expression at the head of an access path is the conditional expression of the two paths:
+    #      (A if c else B).f(x)[k]  ==  A.f(x)[k] if c else B.f(x)[k]     (c is evaluated first either way, then the chosen head, then x, k)
+    def visit_Attribute(self, node):
+        self.generic_visit(node)
+        v = node.value
+        if isinstance(v, ast.IfExp) and isinstance(node.ctx, ast.Load):
+            mk = lambda h: ast.copy_location(ast.Attribute(value=h, attr=node.attr, ctx=ast.Load()), node)
+            return ast.copy_location(ast.IfExp(test=v.test, body=mk(v.body), orelse=mk(v.orelse)), node)
+        return node
+
+    def visit_Subscript(self, node):
+        self.generic_visit(node)
+        v = node.value
+        if isinstance(v, ast.IfExp) and isinstance(node.ctx, ast.Load) and _plain(node.slice):
+            mk = lambda h: ast.copy_location(ast.Subscript(value=h, slice=copy.deepcopy(node.slice), ctx=ast.Load()), node)
+            return ast.copy_location(ast.IfExp(test=v.test, body=mk(v.body), orelse=mk(v.orelse)), node)
+        return node
+
     def visit_Call(self, node):
         self.generic_visit(node)
+        f = node.func
+        if isinstance(f, ast.IfExp) and isinstance(f.body, ast.Attribute) and isinstance(f.orelse, ast.Attribute) and f.body.attr == f.orelse.attr \
+                and all(_plain(a) for a in node.args) and all(k.arg and _plain(k.value) for k in node.keywords):
+            mk = lambda h: ast.copy_location(ast.Call(func=h, args=copy.deepcopy(node.args), keywords=copy.deepcopy(node.keywords)), node)
+            return ast.copy_location(ast.IfExp(test=f.test, body=mk(f.body), orelse=mk(f.orelse)), node)
         # all([..]) / any([..]) over a list comprehension read the same as over the generator
         if isinstance(node.func, ast.Name) and node.func.id in ("all", "any") and len(node.args) == 1 and not node.keywords and isinstance(node.args[0], ast.ListComp):
             lc = node.args[0]
